@@ -278,6 +278,9 @@ def run(ctx):
     refs = G.reference_scripts()      # deterministic: every reference form x data position x framer kind
     scripts += refs
     kinds += ["reference"] * len(refs)
+    flds = G.field_scripts(ctx.thorough)        # deterministic: field clauses differing in name / length
+    scripts += flds
+    kinds += ["fields"] * len(flds)
     incs = G.incomplete_scripts(ctx.thorough)   # deterministic: keyword path heads, missing/extra parts
     scripts += incs
     kinds += ["address"] * len(incs)
@@ -300,6 +303,9 @@ def run(ctx):
         early = r[0] == "ParseError" and ("index = 1." in r[1] or "No current" in r[1])
         if kd == "role":
             s_show = [ln.strip() for ln in s.split("\n")][5]
+        elif kd == "fields":
+            s_show = [ln.strip() for ln in s.split("\n")[3:] if ln.strip() and not ln.startswith("framer")
+                      and not ln.strip().startswith("frame ")][:1]
         elif kd == "address":
             s_show = [ln.strip() for ln in s.split("\n") if ln.startswith("    ") or " via " in ln][:2]
         elif kd == "reference":
